@@ -16,7 +16,7 @@ import numpy as np
 ROOT = Path(os.environ.get("TVF_ROOT", Path(__file__).resolve().parent.parent))
 REPO = Path(os.environ.get("TEMPEST_REPO", "/repo"))
 OUT = ROOT / "out"
-EVID = ROOT / "evidence"
+EVID = (ROOT / "evidence") if str(REPO) == "/repo" else (OUT / "evidence-other-tree")
 KF_FILE = ROOT / "KNOWN_FINDINGS.txt"
 
 
@@ -170,7 +170,7 @@ class Check:
     def finish(self, rule: str, assumptions=None, extra=None) -> int:
         wall = time.time() - self.t0
         OUT.mkdir(exist_ok=True)
-        EVID.mkdir(exist_ok=True)
+        EVID.mkdir(parents=True, exist_ok=True)
         replay_paths = []
         for i, v in enumerate(self.violations[:20]):
             p = OUT / "replay" / f"{self.pid}-{self.tier}-{self.seed}-{i}.json"
